@@ -410,7 +410,14 @@ class TaskManager(rpu.ClientComponent):
                     self._log.debug('tmgr: state known: %s', uid)
                     continue
 
-                target, passed = rps._task_state_progress(uid, current, target)
+                try:
+                    target, passed = rps._task_state_progress(uid, current,
+                                                              target)
+                except ValueError:
+                    # contradicting final state: the task stays as it is, the
+                    # other tasks of this bulk still need to be handled
+                    self._log.exception('ignore invalid update for %s', uid)
+                    continue
 
                 if target in [rps.CANCELED, rps.FAILED]:
                     # don't replay intermediate states
